@@ -89,7 +89,7 @@ def gen(rng, tier, shape=None):
         files.append({"external": ext, "data": f"payload-{rng.randint(0, 50)}-{i}", "value": rng.randint(0, 99),
                       "clean": rng.random() < 0.5})
     kind = rng.choice(KINDS)
-    return {"files": files, "kind": kind, "n": rng.randint(0, 3)}
+    return {"files": files, "kind": kind, "n": rng.randint(0, 3), "hash_length": rng.choice([None, None, 64, 20])}
 
 
 def file_src(f):
@@ -107,14 +107,15 @@ def project(case):
 
 
 def pyproject(case):
+    hl = f"hash-length={case['hash_length']}\n" if case.get("hash_length") else ""      # 64: references carry the full hash, no `*`
     if case["kind"] == "fmt_exit":
-        return "[tool.inline-snapshot]\nformat-command=\"python3 -c 'import sys; sys.exit(3)'\"\n"
+        return "[tool.inline-snapshot]\n" + hl + "format-command=\"python3 -c 'import sys; sys.exit(3)'\"\n"
     if case["kind"] == "fmt_empty":
         # exit status 0 but nothing on stdout (a command that formats the file in place, `true`, ...)
-        return "[tool.inline-snapshot]\nformat-command=\"python3 -c 'pass'\"\n"
+        return "[tool.inline-snapshot]\n" + hl + "format-command=\"python3 -c 'pass'\"\n"
     if case["kind"] == "fmt_garbage":
-        return "[tool.inline-snapshot]\nformat-command=\"echo 'def broken(:'\"\n"
-    return ""
+        return "[tool.inline-snapshot]\n" + hl + "format-command=\"echo 'def broken(:'\"\n"
+    return ("[tool.inline-snapshot]\n" + hl) if hl else ""
 
 
 def model_lines(case):
@@ -139,7 +140,8 @@ def run_impl(case):
     py = pyproject(case)
     base = dict(files)
     base["conftest.py"] = CONFTEST
-    ref = impl_pytest.run_session(base, ["--inline-snapshot=create"], {}, pyproject=("" if case["kind"].startswith("fmt_") else py))
+    py_ref = (f"[tool.inline-snapshot]\nhash-length={case['hash_length']}\n" if case.get("hash_length") else "")     # same project, no fault
+    ref = impl_pytest.run_session(base, ["--inline-snapshot=create"], {}, pyproject=(py_ref if case["kind"].startswith("fmt_") else py))
     env = {} if case["kind"] in ("none", "fmt_exit", "fmt_empty", "fmt_garbage") else {"VT_FAULT": f"{case['kind']}:{case['n']}"}
     r = impl_pytest.run_session(base, ["--inline-snapshot=create"], env, pyproject=py)
     obs = {"rc": r["rc"], "traceback": "Traceback" in r["stderr"] or "injected fault" in r["stderr"],
@@ -181,7 +183,8 @@ def compare(case, obs, model_out):
         refs = []
         if f["external"]:
             h = hashlib.sha256(f["data"].encode()).hexdigest()
-            refs.append([["h"] + [int(c, 16) for c in h[:12]], True, 1])
+            hl = case.get("hash_length") or 12
+            refs.append([["h"] + [int(c, 16) for c in h[:hl]], hl < 64, 1])
         jobs.append([i] + refs)
     store = []
     for i, f in enumerate(case["files"]):
